@@ -565,6 +565,17 @@ fn gen_batch_render(rng: &mut Rng, sw: &Swarm, tg: &mut TaskGen, n_inputs: usize
     for i in 0..k {
         ops.push(faulted(rng, sw, render(0, i), None));
     }
+    if is_img && rng.chance(1, 3) {
+        // the logo file behind the image option changes between two renders of one renderer
+        let a = rng.below(3) as u8;
+        let b = (a + 1 + rng.below(2) as u8) % 3;
+        ops.push(plain(Op::ImgSet { slot: 0, s: RSetter::Image(ImageSpec::File(a)) }));
+        ops.push(plain(render(0, 0)));
+        ops.push(plain(Op::ImgSet { slot: 0, s: RSetter::Image(ImageSpec::File(b)) }));
+        ops.push(plain(render(0, 0)));
+        ops.push(plain(render(0, k - 1)));
+        return;
+    }
     make(1, tg, ops);
     ops.push(plain(render(1, k - 1)));
     ops.push(plain(render(1, 0)));
